@@ -2,7 +2,7 @@
    every run) to the hand-written documented law (C02/Spec.v); each is closed by [exact] of a lemma of Proofs.v. *)
 From Coq Require Import Reals Bool Lra.
 From PP Require Import Kern.RBool C02.Spec Gen.KHydIncompNp Gen.KHydIncompNb Gen.KHydCompNp Gen.KHydCompNb Gen.KPmNp
-  Gen.KFriction Gen.KBasicRes Gen.KGasResNp Gen.KPamb.
+  Gen.KFriction Gen.KBasicRes Gen.KGasResNp Gen.KGasResNb Gen.KPamb.
 From PP Require C02.Proofs.
 Open Scope R_scope.
 
@@ -129,6 +129,25 @@ Theorem reported_values_consistent :
        = doc_normfactor (np_to_PAMB + p_to) bp_TOUTINIT (fl_compressibility (np_to_PAMB + p_to) bp_TOUTINIT)).
 Proof. exact C02.Proofs.reported_lemma. Qed.
 Print Assumptions reported_values_consistent.
+
+(* numba engine: norm factors and gas velocities of get_gas_vel_numba = p_N T/(T_N p) K and v * normfactor at the from end, the to end (outlet temperature) and the mean state *)
+Theorem reported_values_consistent_numba :
+  forall bp_TOUTINIT comp_from comp_mean comp_to np_from_TINIT p_abs_from p_abs_mean p_abs_to v_mps : R,
+  p_abs_from <> 0 -> p_abs_to <> 0 -> p_abs_mean <> 0 ->
+  gasvel_nb_normfactor_from bp_TOUTINIT comp_from comp_mean comp_to np_from_TINIT p_abs_from p_abs_mean p_abs_to v_mps
+    = doc_normfactor p_abs_from np_from_TINIT comp_from /\
+  gasvel_nb_normfactor_to bp_TOUTINIT comp_from comp_mean comp_to np_from_TINIT p_abs_from p_abs_mean p_abs_to v_mps
+    = doc_normfactor p_abs_to bp_TOUTINIT comp_to /\
+  gasvel_nb_normfactor_mean bp_TOUTINIT comp_from comp_mean comp_to np_from_TINIT p_abs_from p_abs_mean p_abs_to v_mps
+    = doc_normfactor p_abs_mean ((np_from_TINIT + bp_TOUTINIT) / 2) comp_mean /\
+  gasvel_nb_v_gas_from bp_TOUTINIT comp_from comp_mean comp_to np_from_TINIT p_abs_from p_abs_mean p_abs_to v_mps
+    = v_mps * doc_normfactor p_abs_from np_from_TINIT comp_from /\
+  gasvel_nb_v_gas_to bp_TOUTINIT comp_from comp_mean comp_to np_from_TINIT p_abs_from p_abs_mean p_abs_to v_mps
+    = v_mps * doc_normfactor p_abs_to bp_TOUTINIT comp_to /\
+  gasvel_nb_v_gas_mean bp_TOUTINIT comp_from comp_mean comp_to np_from_TINIT p_abs_from p_abs_mean p_abs_to v_mps
+    = v_mps * doc_normfactor p_abs_mean ((np_from_TINIT + bp_TOUTINIT) / 2) comp_mean.
+Proof. exact C02.Proofs.reported_numba_lemma. Qed.
+Print Assumptions reported_values_consistent_numba.
 
 (* ambient pressure at height h = barometric formula with the constants of constants.py *)
 Theorem pamb_formula : forall h : R, p_correction_height_air_p h = doc_p_air h.
